@@ -39,6 +39,7 @@ def cases(tier, seed):
                 yield dict(kind='triple', T=T2, M=M2, wr=[min(w * (1 + 0.5 * sh), 1.5) if w else 0 for w in WR],
                            n=2001 if tier == 'quick' else 8001)
     yield dict(kind='invalid')
+    yield dict(kind='inttypes')
     for neg in (None, -1, -30, -5000, -0.01):
         for cont in ('fcs', 'array', 'fcs-list', 'array-list', 'fcs-1d', 'fcs-list-rev', 'array-list-rev', 'fcs-list3', 'array-list3', 'rfi', 'shifted',
                      'mixed-array-first', 'mixed-fcs-first', 'mixed3'):
@@ -124,9 +125,67 @@ def run_triple(c, res):
             if badi:
                 res.violation('inverse-integer-input', '%s: the inverse of whole-number data values held as %s differs from the inverse of the same values as floats by more than 1e-4*M' % (what, badi), one)
                 continue
-        res.counters['max_inverse_error_over_M_x1e9'] = max(res.counters['max_inverse_error_over_M_x1e9'], int(float(ierr.max()) / M * 1e9))
+        # the inverse as an axis gets it (through the registered scale object): the same accuracy
+        try:
+            sc_tr = FlowCal.plot._LogicleScale(None, T=T, M=M, W=W).get_transform()
+            back_s = np.asarray(sc_tr.transform_non_affine(x), dtype=float)
+        except Exception as e:
+            res.violation('scale-inverse-raises:%s' % type(e).__name__, '%s: the transform of the registered scale raised %s: %s' % (what, type(e).__name__, e), one)
+            continue
+        serr = np.abs(back_s - s)
+        if not np.all(np.isfinite(back_s)) or np.any(serr > 1e-4 * M) or np.any(np.diff(back_s) < 0):
+            i = int(np.argmax(np.where(np.isfinite(serr), serr, np.inf)))
+            res.violation('scale-inverse-error', "%s: the inverse used by an axis (set_xscale('logicle')) maps transform(%r) to %r, error %r > 1e-4*M (or is not non-decreasing)" % (
+                what, float(s[i]), float(back_s[i]), float(serr[i])), one)
+            continue
+        res.counters['max_inverse_error_over_M_x1e9'] = max(res.counters['max_inverse_error_over_M_x1e9'], int(float(ierr.max()) / M * 1e9), int(float(serr.max()) / M * 1e9))
         res.ok('triple', W > 0)
     res.sample({'T': T, 'M': M, 'W_over_M': c['wr'], 'display_points': n})
+
+
+def run_inttypes(res):
+    """valid triples given as whole numbers in integer types (Python int, NumPy integers) and as NumPy floats: the same scale as with floats,
+    usable as a transform, as its inverse and on an axis"""
+    import matplotlib
+    matplotlib.use('Agg')
+    import matplotlib.pyplot as plt
+    import FlowCal
+    triples = [(1000, 4, 1), (262144, 5, 2), (1000, 4, 4), (100, 2, 3), (10, 1, 1), (1000, 4, 0), (65536, 6, 1)]
+    for (T, M, W) in triples:
+        ref_t = FlowCal.plot._LogicleTransform(T=float(T), M=float(M), W=float(W))
+        s = np.linspace(0.0, float(M), 41)
+        ref_x = np.asarray(ref_t.transform_non_affine(s), dtype=float)
+        for tname, conv in (('int', int), ('np.int64', np.int64), ('np.int32', np.int32), ('np.float32', np.float32), ('np.float64', np.float64), ('mixed', None)):
+            kw = dict(T=conv(T), M=conv(M), W=conv(W)) if conv else dict(T=float(T), M=int(M), W=np.int64(W))
+            one = dict(kind='inttypes')
+            what = 'logicle(T=%r, M=%r, W=%r) with the parameters given as %s' % (T, M, W, tname)
+            try:
+                t = FlowCal.plot._LogicleTransform(**kw)
+                x = np.asarray(t.transform_non_affine(s), dtype=float)
+                x_int = [float(np.asarray(t.transform_non_affine(k_))) for k_ in range(0, int(M) + 1)]       # display coordinates as Python ints
+                inv = t.inverted()
+                back = np.asarray(inv.transform_non_affine(ref_x), dtype=float)
+                fig = plt.figure()
+                try:
+                    ax = fig.add_subplot(111)
+                    ax.set_xscale('logicle', **kw)
+                    ax.plot([1.0, T / 2.0], [0, 1])
+                    fig.canvas.draw()
+                    ax_back = np.asarray(ax.xaxis.get_transform().transform_non_affine(ref_x), dtype=float)
+                finally:
+                    plt.close(fig)
+            except Exception as e:
+                res.violation('inttypes:raises:%s' % type(e).__name__, '%s raised %s: %s' % (what, type(e).__name__, e), one)
+                continue
+            want_int = [float(np.asarray(ref_t.transform_non_affine(np.array([float(k_)])))[0]) for k_ in range(0, int(M) + 1)]
+            span = abs(ref_x[-1] - ref_x[0])
+            if np.any(np.abs(x - ref_x) > 1e-6 * np.maximum(np.abs(ref_x), span)) or any(abs(a_ - b_) > 1e-6 * max(abs(b_), span) for a_, b_ in zip(x_int, want_int)):
+                res.violation('inttypes:transform', '%s: the transform differs from the one with float parameters' % what, one)
+            elif np.any(np.abs(back - s) > 1e-4 * M) or np.any(np.abs(ax_back - s) > 1e-4 * M):
+                res.violation('inttypes:inverse', '%s: the inverse (direct or through an axis) is off by more than 1e-4*M' % what, one)
+            else:
+                res.ok('inttypes', True)
+    res.sample({'triples': triples, 'types': ['int', 'np.int64', 'np.int32', 'np.float32', 'np.float64', 'mixed']})
 
 
 def run_invalid(res):
@@ -209,7 +268,7 @@ def run_derive(c, res):
     a0, a1 = np.array(d0.view(np.ndarray), dtype=float), np.array(d1.view(np.ndarray), dtype=float)
     an = np.array(dn.view(np.ndarray), dtype=float)
     for ch in range(3):
-        for ovr in ({}, {'T': 5000.0}, {'M': 5.5}, {'W': 0.75}, {'T': 300.0, 'M': 3.0}, {'W': 0.0}, {'W': 0}, {'T': 1.0}, {'M': 0.3}):
+        for ovr in ({}, {'T': 5000.0}, {'M': 5.5}, {'W': 0.75}, {'T': 300.0, 'M': 3.0}, {'W': 0.0}, {'W': 0}, {'T': 1.0}, {'M': 0.3}, {'T': 1e6}, {'T': 5e7, 'W': 0.5}):
             if cont == 'fcs':
                 data, cols, rng = d0, [a0[:, ch]], [ranges[ch] - 1]
                 chan = ch
@@ -418,6 +477,8 @@ def run_case(c):
             run_triple(c, res)
         elif k == 'invalid':
             run_invalid(res)
+        elif k == 'inttypes':
+            run_inttypes(res)
         elif k == 'derive':
             run_derive(c, res)
         else:
